@@ -9,7 +9,7 @@ S2C : streams generated from OpSeq.tla behaviours through the public API are val
 """
 import json
 
-from .. import corpus, faststorage, stream_events, streams, tlc, vela_run
+from .. import corpus, faststorage, stream_events, streams, tlc, vela_run, weightbuf
 from ..common import Run, MachineryError, seed
 
 CONFIG_ARENA = {"Dedicated_Sram": 393216, "Dedicated_Sram_512KB": 524288}
@@ -36,14 +36,40 @@ def main(tier):
         run.add_mc("FastStorage/" + cfg, res)
     jobs = corpus.all_singles(sd) + corpus.draw(n, sd, dedicated_bias=0.5)
     jobs += corpus.draw(12 if tier == "quick" else 150, sd + 7, families=["diamonds", "branch", "inplace"])
+    for cfg, want in (("WeightBuffer_MC.cfg", "ok"), ("WeightBuffer_Broken.cfg", "invariant")):
+        res = tlc.run("WeightBuffer", cfg, workers=8, timeout=900)
+        if res["status"] != want:
+            raise MachineryError("WeightBuffer %s: expected %s, got %s\n%s" % (cfg, want, res["status"], res["output"][-1500:]))
+        run.add_mc("WeightBuffer/" + cfg, res)
+    jobs += corpus.draw(10 if tier == "quick" else 150, sd + 13, families=["pruned", "wide", "tied"])
+
+    def both(nng, arch, res):
+        return {"fs": faststorage.extractor(nng, arch, res), "wb": weightbuf.extract(nng, arch, res)}
+    both.on_failure = True
     faststorage.install()
     try:
-        rs = vela_run.compile_many(jobs, extractor=faststorage.extractor)
+        rs = vela_run.compile_many(jobs, extractor=both)
     finally:
         faststorage.uninstall()
+    wb_events, wb_index = [], {}
+    for j, x in zip(jobs, rs):
+        for rec in ((x.get("extract") or {}).get("wb") or []):
+            rec["t"] = len(wb_events) + 1
+            wb_events.append(rec)
+            wb_index[rec["t"]] = j
+    if wb_events:
+        res, viol = tlc.validate_traces("WeightBufferTrace", "WeightBufferTrace.cfg", wb_events, timeout=1800)
+        run.add_trace_run("WeightBufferTrace", res, len(wb_events))
+        for v in viol:
+            j = wb_index[v[0]]
+            run.violation("WeightBuffer|Fits|%s|%s" % (v[3], j["family"].split(":")[0]),
+                          "a depth slice is larger than the %s weight buffer it is DMA'd into (operator %s of %s with %s)" % (
+                              v[3], v[2], j["family"], j["opts"]), {"net": j["net"], "opts": j["opts"], "record": wb_events[v[0] - 1]})
+        run.cov["weight_buffering"] = {"operators": len(wb_events), "single": sum(1 for e in wb_events if e["kind"] == "single"),
+                                       "double": sum(1 for e in wb_events if e["kind"] == "double")}
     fs_events, fs_index = [], {}
     for j, x in zip(jobs, rs):
-        for rec in (x.get("extract") or []):
+        for rec in ((x.get("extract") or {}).get("fs") or []):
             rec["t"] = len(fs_events) + 1
             fs_events.append(rec)
             fs_index[rec["t"]] = j
